@@ -28,7 +28,8 @@ Layout(j) == [comps |-> j.comps, has |-> j.has, resets |-> j.resets, plain |-> j
               feedbacks |-> {[o |-> j.feedbacks[i].o, key |-> j.feedbacks[i].key] : i \in 1..Len(j.feedbacks)},
               fbtypes |-> [k \in {j.feedbacks[i].key : i \in 1..Len(j.feedbacks)} |->
                              (LET i == CHOOSE i \in 1..Len(j.feedbacks) : j.feedbacks[i].key = k IN j.feedbacks[i].ty)],
-              teleAuto |-> j.teleAuto, modes |-> ToSet(j.modes), defmode |-> j.defmode, period |-> j.period]
+              sm |-> ToSet(j.sm), teleAuto |-> j.teleAuto, modes |-> ToSet(j.modes), defmode |-> j.defmode,
+              period |-> j.period]
 
 TInit == /\ tid \in 1..Len(Batch) /\ l = 1 /\ verdict = "" /\ vkind = "" /\ vnew = FALSE /\ seen = {}
          /\ adopted = 0 /\ lastSw = FALSE /\ mon = [lastM |-> "", prevEnabled |-> FALSE, afterWake |-> FALSE, bad |-> "", fbc |-> <<>>]
@@ -51,6 +52,7 @@ DataDiffs(ev) ==
             \cup (IF ValsDiffer(ev.vals) THEN {"vals"} ELSE {})
             \cup (IF ~ev.inj THEN {"inj"} ELSE {})
             \cup (IF ev.k = "auto.on_iteration" /\ ev.arg # now - autoT0 THEN {"arg"} ELSE {})
+            \cup (IF ev.k = "execute" /\ ev.st # SmState(ev.o) THEN {"smstate"} ELSE {})
       [] ev.e = "wait" ->
             (IF ev.t # now THEN {"t"} ELSE {}) \cup (IF FbDiffer(ev.fb) THEN {"fb"} ELSE {})
             \cup (IF FbTypeDiffer(ev.fbt) THEN {"fbtype"} ELSE {})
@@ -59,6 +61,7 @@ DataDiffs(ev) ==
 
 DataOwner(c) == CASE c = "t" -> {"C05"} [] c = "m" -> {"C05"} [] c = "vals" -> {"C10"}
                   [] c = "inj" -> {"C06"} [] c = "arg" -> {"C05"} [] c = "fb" -> {"C11"} [] c = "fbtype" -> {"C11"}
+                  [] c = "smstate" -> {"C05"}
 
 Lifecycle == {"setup", "on_enable", "on_disable"}
 \* who owns a disagreement about WHICH event comes next
@@ -79,6 +82,7 @@ Adopt(ev, d) ==      \* take over observed data so that later clauses are still 
     /\ ntMode' = IF "m" \in d THEN ev.m ELSE ntMode
     /\ rv' = IF "vals" \in d THEN [c \in CompSet |-> [a \in Attrs(c) |-> ev.vals[c][a]]] ELSE rv
     /\ fbNT' = IF "fb" \in d THEN [k \in DOMAIN fbNT |-> ev.fb[k]] ELSE fbNT
+    /\ smReq' = IF "smstate" \in d THEN [c \in sh.sm |-> IF c = ev.o THEN ev.st = "go" ELSE smReq[c]] ELSE smReq
     /\ autoT0' = IF "arg" \in d THEN now' - ev.arg ELSE autoT0
     /\ UNCHANGED <<sh, ds, fms, exit, selStr, pc, mode, todo, fbleft, en, nsetup, active, iterNo, mIter,
                    nfault, swallowed>>
@@ -129,6 +133,7 @@ Consume ==
                          \cup (IF ev.e = "cb" /\ ev.raise THEN {IF pc' = "crashed" THEN "fatal" ELSE "swallow"} ELSE {})
                          \cup (IF ev.e = "cb" /\ ev.adv > 0 THEN {"overrun"} ELSE {})
                          \cup (IF ev.e = "cb" /\ ev.w # <<>> THEN {"write"} ELSE {})
+                         \cup (IF ev.e = "cb" /\ ev.k = "execute" /\ ev.st = "go" THEN {"sm_go"} ELSE {})
          /\ lastSw' = (ev.e = "cb" /\ ev.raise)
          /\ UNCHANGED adopted /\ l' = l + 1
          /\ IF l = Len(T.steps)
